@@ -6,7 +6,10 @@
      (3) short reads / short writes do not change the compressed bytes (compared with the same
          session over a wrapped stream that never answers short);
      (4) if every call succeeded the sink holds a complete stream that decodes to everything
-         written (decoding is done by the harness with brotli_decompressor; here: its verdict).
+         written (decoding is done by the harness with brotli_decompressor; here: its verdict) -
+         and "everything" is the whole input: a reader / copy session may only end successfully
+         after the wrapped reader itself signalled end of input (answered Ok(0)); an adapter that
+         stops pulling earlier delivers a valid stream of a mere prefix.
    Used by the check on the answers of the IMPLEMENTATION (search), independently of the model. *)
 From Coq Require Import NArith List Bool Arith.
 Import ListNotations.
@@ -27,6 +30,7 @@ Record obs := {
   o_results : list ores;
   o_faults : list (fault * nat);
   o_all_ok : bool;
+  o_input_exhausted : bool;           (* the wrapped reader answered Ok(0) (true for the writer) *)
   o_decodes : option bool;            (* Some b only when a complete stream is expected *)
   o_same_as_unscripted : option bool  (* Some b only when the two sessions are comparable *)
 }.
@@ -38,6 +42,7 @@ Inductive verdict :=
 | VSwallowed (call : nat)        (* a fault was answered but the call returned Ok *)
 | VNoReport (call : nat)         (* a fault was answered during a call that cannot report *)
 | VWrongError (call : nat)       (* an error was reported, but not the wrapped stream's *)
+| VTruncated                      (* every call succeeded but the input was not read to its end *)
 | VBytesChanged
 | VBadStream.
 
@@ -76,6 +81,7 @@ Definition spec_check (o : obs) : verdict :=
   | VOk =>
     match faults_reported (o_faults o) (o_results o) with
     | VOk =>
+      if o_all_ok o && negb (o_input_exhausted o) then VTruncated else
       match o_same_as_unscripted o with
       | Some false => VBytesChanged
       | _ =>
